@@ -120,10 +120,12 @@ Section Fmt.
       change (0 * 256 + 0 =? 0) with true. change (0 =? 0) with true. cbn [negb orb].
       replace (length pre + N.to_nat (14 + 6 * np))%nat with (length b')
         by (rewrite Hpl, Hlen; unfold np; lia).
-      unfold np at 1. rewrite Nnat.Nat2N.id.
+      cbv zeta. replace (N.to_nat np) with (length pairs) by (unfold np; rewrite Nnat.Nat2N.id; reflexivity).
       cbn [ksub_records].
       destruct (N.land flags maskSel =? wanted) eqn:Esel; cbn [negb].
       + rewrite read_pairs_encoded by exact Hpairs.
+        replace (length b' <? length pre + 14 + 6 * length pairs)%nat with false
+          by (symmetry; apply Nat.ltb_ge; rewrite Hpl, Hlen; lia).
         rewrite IH. reflexivity.
       + rewrite IH. reflexivity.
     - destruct Hs as (Hv & Hfm & Hfl & Hne & Hb8 & Hb).
